@@ -48,7 +48,7 @@ type cookieFinalizer struct {
 
 func newCookieFinalizer(id string, rawConfig map[string]any) (*cookieFinalizer, error) {
 	type Config struct {
-		Cookies map[string]template.Template `mapstructure:"cookies" validate:"required,gt=0"`
+		Cookies map[string]template.Template `mapstructure:"cookies" validate:"required,gt=0,dive,required"`
 	}
 
 	var conf Config
